@@ -185,7 +185,7 @@ class C16(Prop):
             await api.connect()
             conn = mp.conns[-1]
             trace = []
-            for n in range(14):
+            for n in range(14 if r.random() > 0.1 else 130):
                 new_report()
                 a = request_for(r.randrange(32), r)
                 if r.random() < 0.25:
